@@ -21,7 +21,7 @@ class Prop(c14.Prop):
     LEAN_MODULE = "TextxVerif.Props.C15"
     THEOREMS = THEOREMS
     QUICK_CASES = 390
-    THOROUGH_CASES = 10000
+    THOROUGH_CASES = 6500
     RULE = ("failing load attempts: 13 fault kinds (cycled) x user classes on/off (7 variants) x single / multi-file x nested "
             "loads x global repository; non-trivial = the attempt failed after at least one model object existed "
             "(an event was logged or a class was instrumented)")
